@@ -99,7 +99,7 @@ class Analysis:
     def __init__(self, idx: Index, res: Resolver, options: Optional[dict] = None):
         self.idx = idx
         self.res = res
-        self.opt = {"track_cnp": False, "connector_assign_writes": True}
+        self.opt = {"track_cnp": False, "connector_assign_writes": True, "user_params": {}, "user_attrs": ()}
         self.opt.update(options or {})
         self.memo_funcs: Dict[int, str] = {}  # id(FuncInfo.node) → name (decorated)
         self.memo_names: Dict[Tuple[str, str], str] = {}  # (module, name) → label (wrapper assignment)
@@ -235,6 +235,10 @@ class FuncInterp:
             self.params.append(a.kwarg.arg)
         for i, p in enumerate(self.params):
             self.env[p] = Val(frozenset({("param", i)}))
+        for pname in an.opt.get("user_params", {}).get(fn.qualname, ()):
+            if pname in self.env:
+                self.env[pname] = self.env[pname].join(Val(frozenset({("user", f"argument `{pname}` of {fn.name}")}),
+                                                           frozenset({("user", f"elements of argument `{pname}` of {fn.name}")})))
         self.np_aliases_cnp: Set[str] = set()  # local names bound to connector.np (C09b)
         self.np_aliases_host: Set[str] = set()  # local names bound to fallback_np / numpy module
         self.static_guard_np: Set[str] = set()
@@ -478,6 +482,9 @@ class FuncInterp:
         if e.attr in ("params", "_params") and not (isinstance(base, ast.Name) and base.id == "self" and not self.is_instr_method):
             if self._is_instruction_expr(base):
                 return Val(frozenset({("user", f"{norm(e)}")}), frozenset({("user", f"{norm(e)}[...]")}))
+        # the instruction list of a Program is a user-owned container
+        if e.attr in self.an.opt.get("user_attrs", ()):
+            return Val(frozenset({("user", norm(e))}), frozenset({("user", norm(e) + "[...]")}))
         if isinstance(base, ast.Name) and base.id == "self" and self.fn.cls is not None:
             for c in self.fn.cls.mro():
                 k = (c.qualname, e.attr)
@@ -488,7 +495,6 @@ class FuncInterp:
             if meth is not None and any(d in ("property",) for d in meth.decorators):
                 return self._subst_return(self.an.summary(meth), [self.env.get("self", EMPTY)])
             return EMPTY
-        # x.attr where x aliases something: attributes of user objects are user objects (conservative only for params)
         bv = self.val(base)
         return EMPTY if not bv else Val(frozenset(), frozenset())
 
